@@ -1415,6 +1415,22 @@ func (e *Enc) declareSpecFunc(sf *SpecFunc) {
 		}
 	}
 	e.declSet[name] = true
+	if sf.Opaque && kw == "define-fun" {
+		// Boogie-style function axiom: applications stay atomic terms (usable as
+		// triggers, framed by congruence); the definition unfolds at ground applications
+		e.decls = append(e.decls, "(declare-fun "+name+" ("+strings.Join(sorts, " ")+") "+retSort+")")
+		var names []string
+		for _, f := range formals {
+			names = append(names, strings.Fields(strings.TrimPrefix(f, "("))[0])
+		}
+		app := sApp(name, names...)
+		if len(formals) == 0 {
+			e.assume("(= " + app + " " + body.L[0] + ")")
+		} else {
+			e.assume("(forall (" + strings.Join(formals, " ") + ") (! (= " + app + " " + body.L[0] + ") :pattern (" + app + ")))")
+		}
+		return
+	}
 	e.decls = append(e.decls, "("+kw+" "+name+" ("+strings.Join(formals, " ")+") "+retSort+" "+body.L[0]+")")
 }
 
